@@ -131,8 +131,10 @@ def check(ctx, src):
     evals = [c for c in pyq.calls(he) if dotted(c.func) == "eval"]
     ex = [c for c in evals if c.args and isinstance(c.args[0], ast.Call) and dotted(c.args[0].func) == "compile" and norm(c.args[0].args[0]) == v_ast]
     ev = [c for c in evals if c.args and isinstance(c.args[0], ast.Call) and dotted(c.args[0].func) == "compile" and norm(c.args[0].args[0]) == v_expr]
-    ctx.check(len(ex) == 1 and len(ev) == 1, "EVAL-RETURN", key + "|two-step", "hy_eval must evaluate the statement module once and the expression once",
-              REL, he.lineno, detail="one exec-mode and one eval-mode evaluation")
+    uses = lambda v: sum(1 for n in ast.walk(he) if isinstance(n, ast.Name) and n.id == v and isinstance(n.ctx, ast.Load))
+    two = True if (len(ex) == 1 and len(ev) == 1) else (False if (uses(v_ast) == 0 or uses(v_expr) == 0 or len(ex) > 1 or len(ev) > 1) else None)
+    ctx.decide("EVAL-RETURN", key + "|two-step", two, f"hy_eval must evaluate the statement module once and the expression once (module used {uses(v_ast)}x, expression {uses(v_expr)}x; direct evaluations {len(ex)}/{len(ev)})",
+               REL, he.lineno, witness="(hy.eval '(do (setv x 1) x)) does not run the statements / returns None", detail="one exec-mode and one eval-mode evaluation")
     if len(ex) == 1 and len(ev) == 1:
         ctx.check(ex[0].lineno < ev[0].lineno and isinstance(ev[0]._parent, ast.Return), "EVAL-RETURN", key + "|order",
                   "the statements must run before the expression, and the expression's value must be returned", REL, ev[0].lineno,
